@@ -82,6 +82,7 @@ type tRun struct {
 	enters  map[string]int
 	t0      time.Time
 	doneSig map[string]chan struct{} // closed when dn signalled Done (first time)
+	settledOK bool
 }
 
 func (r *tRun) logLocked(kind string, in *tInst, body string) int {
@@ -382,6 +383,7 @@ func runScenario(sc *tScenario, deadline time.Duration) *tRun {
 		time.Sleep(2 * time.Millisecond)
 		ok = false
 	}
+	r.settledOK = ok
 	if ok {
 		r.log("settled", nil, "ok=1 why=-")
 	} else {
@@ -497,6 +499,12 @@ func fixedScenarios() []*tScenario {
 			"root.p":   {{groups: [][]string{{"c"}}, healthy: true, fail: "other", waitFor: "root.p.c", after: 2 * ms}, {groups: [][]string{{"c"}}, healthy: true}},
 			"root.p.c": {{healthy: true, done: true, lingerUntilTwin: true, linger: 400 * ms, ctxHow: "nil"}, stableLeaf()},
 		}},
+		// same, but the lingering instance belongs to a node that has been restarted before (its bookkeeping is reused)
+		{name: "done-lingers-second-incarnation", scripts: map[string][]tScript{
+			"root":     {{groups: [][]string{{"p"}}, healthy: true}},
+			"root.p":   {{groups: [][]string{{"c"}}, healthy: true, fail: "other", waitFor: "root.p.c", after: 2 * ms}, {groups: [][]string{{"c"}}, healthy: true}},
+			"root.p.c": {{healthy: true, fail: "other", after: 2 * ms}, {healthy: true, done: true, lingerUntilTwin: true, linger: 400 * ms, ctxHow: "nil"}, stableLeaf()},
+		}},
 		{name: "done-lingers-root-fails", scripts: map[string][]tScript{
 			"root":   {{groups: [][]string{{"c"}}, healthy: true, fail: "nil", waitFor: "root.c", after: ms}, {groups: [][]string{{"c"}}, healthy: true}},
 			"root.c": {{healthy: true, done: true, lingerUntilTwin: true, linger: 400 * ms, ctxHow: "own"}, stableLeaf()},
@@ -576,6 +584,15 @@ func randScenario(r *rand.Rand, idx int) *tScenario {
 				s.linger = time.Duration(1+r.Intn(8)) * ms
 			}
 			s.ctxHow = ctxHows[r.Intn(len(ctxHows))]
+			if last {
+				// The final incarnation must answer a cancellation with the context error (or, once Done, with nil):
+				// a service that answers every cancellation with a failure of its own cancels its group again, and two
+				// such services in one group legitimately restart each other for ever - nothing C18 speaks about.
+				s.ctxHow = []string{"own", "own", "wctx"}[r.Intn(3)]
+				if s.done && r.Intn(3) == 0 {
+					s.ctxHow = "nil"
+				}
+			}
 			if last && s.done && s.fail == "" {
 				// a Done service that keeps running until cancelled and returns late: the exit-latency case
 				if r.Intn(2) == 0 {
@@ -628,7 +645,13 @@ func TestVerifSupervisorTrace(t *testing.T) {
 	}
 	defer f.Close()
 	w := bufio.NewWriterSize(f, 1<<20)
+	started, err := os.Create(filepath.Join(out, "supervisor_trace.started"))
+	if err != nil {
+		t.Fatal(err)
+	}
+	defer started.Close()
 	var wmu sync.Mutex
+	unsettled := 0
 	// Every trace is written (and flushed) as soon as its scenario ends: on a broken supervisor the processor
 	// goroutine can panic, which takes the whole test binary down, and what was observed until then must survive.
 	runBatch := func(batch []*tScenario, base int) {
@@ -640,8 +663,19 @@ func TestVerifSupervisorTrace(t *testing.T) {
 			go func(i int, sc *tScenario) {
 				defer wg.Done()
 				defer func() { <-sem }()
-				r := runScenario(sc, deadline)
+				dl := deadline
 				wmu.Lock()
+				// which scenarios are in flight, should the processor goroutine take the process down
+				fmt.Fprintf(started, "start tr%d name=%s\n", base+i+1, sc.name)
+				if unsettled >= 4 {
+					dl = 3 * time.Second // the supervisor is evidently not restarting things: do not wait long for the rest
+				}
+				wmu.Unlock()
+				r := runScenario(sc, dl)
+				wmu.Lock()
+				if !r.settledOK {
+					unsettled++
+				}
 				r.write(w, fmt.Sprintf("tr%d", base+i+1))
 				w.Flush()
 				wmu.Unlock()
